@@ -638,6 +638,10 @@ class MultiOrigin(Origin):
         if len(self.origins) < 2:
             raise ValueError("MultiOrigin must have at least two origin")
 
+        # Any sequence is accepted, but deserialization always yields a list: normalize
+        # to a tuple so that equality (and hashing) doesn't depend on the sequence type
+        object.__setattr__(self, "origins", tuple(self.origins))
+
         if all(origin.source == self.origins[0].source for origin in self.origins[1:]):
             object.__setattr__(self, "source", self.origins[0].source)
         else:
